@@ -5,21 +5,34 @@ P = dict(
     memcheck_stride=dict(quick=20, thorough=20),
     post='reports',
     level='exploration',
-    technique='runtime monitoring: generated runs executed by the real registry/runner (unfiltered, filtered by group/name filters of every kind, and with every test in a real forked child), XML captured at the PlatformSpecificFOpen/FPuts/FClose seams, judged offline by Python expat (well-formedness) and a ground-truth comparison (faithfulness; selection computed by an independent model of the filter rule); ASan/UBSan build',
-    rule='case = one generated run (1..5 groups x 1..6 consecutive tests, pass / 1-2 failures / ignored, optional package, names, paths, failure texts and printed texts over printable ASCII weighted to & < > " \' | [ ] / \\ ? % * : and line breaks plus entity/CDATA/comment look-alikes; '
+    technique='runtime monitoring: generated runs executed by the real registry/runner (unfiltered, filtered by group/name filters of every kind, with every test in a real forked child, with and without the run-ignored option, in one or two passes over the same shells), XML captured at the PlatformSpecificFOpen/FPuts/FClose seams, judged offline by Python expat (well-formedness) and a ground-truth comparison (faithfulness; selection computed by an independent model of the filter rule); ASan/UBSan build',
+    rule='case = one generated run (1..5 groups x 1..6 consecutive tests, 8 % of the runs the boundary of one group with one test, pass / 1-2 failures / ignored, optional package, names, paths, failure texts and printed texts over printable ASCII weighted to & < > " \' | [ ] / \\ ? % * : and line breaks plus entity/CDATA/comment look-alikes; '
          'the empty string is a boundary value of group names (6 %, at most one per run), test names (4 %), failure texts and printed texts), '
-         '65% driven directly through TestRegistry::runAllTests with a recording JUnitTestOutput subclass, 35% through CommandLineTestRunner -ojunit [-k pkg] [-v] [-r2]. '
+         '65% driven directly through TestRegistry::runAllTests with a recording JUnitTestOutput subclass (25 % of these, 60 % of the single-test runs: two or three passes over the same registry and output object, one TestResult per pass as the runner does; in 40 % of the unfiltered multi-pass runs, 70 % of the single-test ones, UtestShell::setTestName renames 70 % of the shells between two passes and each pass must be reported under the names of that pass), 35% through CommandLineTestRunner -ojunit [-k pkg] [-v] [-r2] [-ri]. '
+         'Which tests are the ignored tests of a run depends on the run: every IGNORE_TEST (22 % of the tests, an IgnoredUtestShell subclass) has a scripted body (checks, prints, 0-2 failures) like an ordinary test; 22 % of the runs use the run-ignored option '
+         '(TestRegistry::setRunIgnored before the first pass or between two passes, or -ri, also combined with -r2, filters and separate processes), 10 % of the direct runs without it call UtestShell::setRunIgnored() on individual shells (ignored and ordinary ones). '
+         'Per pass an IGNORE_TEST is either skipped (skipped marker required, no failure element, nothing printed) or executed (first time or again; then it is no ignored test of the run: no skipped marker, failure element iff its body failed, counted in the suite failures, its prints in system-out); a violation of the latter is keyed junit:skipped-marker:ignore-test-executed-under-run-ignored. '
          '25 % of the runs carry one or two filters (group or name, substring or strict, selecting or excluding; text taken from a test of the run or absent from it; TestRegistry::setGroupFilters/setNameFilters or -g/-sg/-xg/-xsg/-n/-sn/-xn/-xsn): '
          'every group with at least one selected test must produce, in run order, one file holding exactly its selected tests with true counts; what a wholly filtered-out group leaves behind (nothing, or a report without test cases) is not judged. '
          '8 % of the runs (3 % in the thorough tier) execute every test in a forked child (registry flag or -p; children pass, fail checks, _exit(n) or are killed by SIGKILL/SIGTERM/SIGUSR1/SIGUSR2): the parent\'s files must carry a failure element exactly for the tests whose child failed (wording not judged). '
-         'Non-trivial = run with a markup character in some name/path/message AND a failing AND an ignored test; distinct by the (group, test, outcome) sequence',
+         'Non-trivial = run with a markup character in some name/path/message AND a failing (executed) AND an ignored (skipped in some pass) test; distinct by the (group, test, outcome) sequence',
     floor=dict(quick=500, thorough=10000),
     counter_floor=dict(quick=dict(junit_files_parsed=3000, junit_testcases_checked=8000, runs_filtered=400, runs_filter_drops_last_test_of_a_group_that_ran=100, junit_files_judged_in_filtered_runs=500,
-                                  junit_files_of_a_group_with_empty_name=150, tests_with_empty_name=400, runs_in_separate_processes=80, junit_parent_side_failures_seen=400),
+                                  junit_files_of_a_group_with_empty_name=150, tests_with_empty_name=400, runs_in_separate_processes=80, junit_parent_side_failures_seen=400,
+                                  runs_with_run_ignored=400, runs_with_run_ignored_through_TestRegistry_setRunIgnored=250, runs_with_run_ignored_through_runner_option_ri=120, runs_with_run_ignored_switched_on_between_two_passes=20, runs_with_setRunIgnored_on_single_shells=80,
+                                  junit_ignore_tests_skipped_checked=3000, junit_ignore_tests_executed_passing_checked=400, junit_ignore_tests_executed_failing_checked=400,
+                                  ignore_test_passes_executed_first_time_in_first_pass=700, ignore_test_passes_executed_first_time_in_a_later_pass=50, ignore_test_passes_executed_again=100,
+                                  runs_with_a_single_test=150, runs_with_tests_renamed_between_passes=100, tests_renamed_and_started_next_after_their_own_previous_start=15, junit_renamed_tests_checked=800),
                        thorough=dict(junit_files_parsed=50000, runs_filtered=8000, runs_filter_drops_last_test_of_a_group_that_ran=2000, junit_files_judged_in_filtered_runs=10000,
-                                     junit_files_of_a_group_with_empty_name=3000, tests_with_empty_name=8000, runs_in_separate_processes=1000, junit_parent_side_failures_seen=5000)),
+                                     junit_files_of_a_group_with_empty_name=3000, tests_with_empty_name=8000, runs_in_separate_processes=1000, junit_parent_side_failures_seen=5000,
+                                     runs_with_run_ignored=8000, runs_with_run_ignored_through_TestRegistry_setRunIgnored=5000, runs_with_run_ignored_through_runner_option_ri=2500, runs_with_run_ignored_switched_on_between_two_passes=400, runs_with_setRunIgnored_on_single_shells=1500,
+                                     junit_ignore_tests_skipped_checked=60000, junit_ignore_tests_executed_passing_checked=8000, junit_ignore_tests_executed_failing_checked=8000,
+                                     ignore_test_passes_executed_first_time_in_first_pass=14000, ignore_test_passes_executed_first_time_in_a_later_pass=1000, ignore_test_passes_executed_again=2000,
+                                     runs_with_a_single_test=4000, runs_with_tests_renamed_between_passes=2000, tests_renamed_and_started_next_after_their_own_previous_start=300, junit_renamed_tests_checked=16000)),
     assumptions=['default (consecutive) group order, distinct group names whose sanitised file names differ', 'printable ASCII plus CR/LF only (no other control characters, no bytes >= 0x80)',
                  'filtered runs: a test is selected iff some group filter (if any) accepts its group and some name filter (if any) accepts its name; non-strict filters are never empty; what a wholly filtered-out group produces is not judged (a captured file without testcase elements is skipped at such a position)',
                  'separate-process runs: only the parent\'s files are judged; the text printed by a child and the wording/location of the parent-side failure are not judged (C11)',
+                 '"ignored tests" of a run = the IGNORE_TESTs that the run did not execute: an IGNORE_TEST executed because of the run-ignored option (or setRunIgnored() on its shell) is judged like an ordinary test of that pass; setRunIgnored() on an ordinary test changes nothing; the option stays in force for later passes over the same registry',
+                 'two passes in direct mode share the output object (one TestResult per pass): each pass must produce its own complete set of files',
                  'system-out may hold the output so far or only the current group\'s', 'the failure message may be any one of the test\'s failures', 'assertions/time/timestamp attributes are not judged'],
 )
